@@ -37,6 +37,13 @@ def effects(pre, post):
 
 def run(ctx, rep):
     f = ctx.facts
+    n_builders = builders(f, rep)
+    rep.floor('option builders and setters', n_builders, 100)
+    rest(f, rep)
+
+def builders(f, rep):
+    """every public setter / option builder on a symbolic receiver: which fields it writes and with what value
+    (shared with C04: the value a field has in the image is what the constructor and the setters gave it)"""
     n_builders = 0
     types = dict(SPEC.OPTIONS)
     for d, b in f.bodies.items():
@@ -105,8 +112,9 @@ def run(ctx, rep):
                        detail={'field': fld, 'after': show(got) if is_term(got) else repr(got), 'specified': show(exp)})
         for (fld, mask), methods in or_consts.items():
             rep.ob('contradiction', '%s.%s|%#x' % (ty, fld, mask), len(set(methods)) == 1, 'options %s of %s all or %#x into %s: they are indistinguishable in the output' % (sorted(set(methods)), ty, mask, fld))
-    rep.floor('option builders and setters', n_builders, 100)
+    return n_builders
 
+def rest(f, rep):
     # ---- constructor-time options
     for (ty, ctor), fields in sorted(SPEC.CTOR_OPTIONS.items()):
         cb = fns_of(f, ty).get(ctor)
